@@ -11,6 +11,8 @@ import (
 
 func init() { checks["C12"] = checkC12 }
 
+var c12ObjDst simdjson.Object
+
 func hexList(keys []string) string {
 	if len(keys) == 0 {
 		return "-"
@@ -105,6 +107,7 @@ func checkC12(c *Ctx) {
 	}
 	keyPool := []string{"", "a", "b", "c", "ab", "ba", "aa", "key", "yek", "k0", "k1", "é", "a\"b", "long key with spaces"}
 	nd := c.N(700, 10000)
+	var prevPJ *simdjson.ParsedJson
 	for d := 0; d < nd; d++ {
 		// build a document rich in objects
 		dup := d%3 == 0
@@ -138,11 +141,19 @@ func checkC12(c *Ctx) {
 		if d%5 == 0 {
 			doc = []byte("[" + string(doc) + "]")
 		}
-		out := implParse(doc, false, r.Bool(), nil)
+		// one document in two is parsed into the ParsedJson the previous one returned (the
+		// destinations of the lookups below are re-used across documents as well)
+		var reusePJ *simdjson.ParsedJson
+		if d%2 == 1 {
+			reusePJ = prevPJ
+		}
+		out := implParse(doc, false, r.Bool(), reusePJ)
 		if out.Err {
+			prevPJ = nil
 			continue
 		}
 		pj := out.PJ
+		prevPJ = pj
 		st := stateArgs(pj)
 		pos, err := flatPositions(pj, 100000)
 		if err != nil {
@@ -206,7 +217,9 @@ func checkC12(c *Ctx) {
 			ps := pathStr(p.Path)
 			objAt := func() *simdjson.Object {
 				it := iterAt(pj, p.K)
-				o, _ := it.Object(nil)
+				// one destination Object for all lookups of all documents (no-copy documents parsed
+				// into a reused ParsedJson share the string-buffer pointer with their predecessor)
+				o, _ := it.Object(&c12ObjDst)
 				return o
 			}
 			// FindKey
